@@ -21,15 +21,15 @@ var knownCases = []struct {
 	// textual oracle (2)
 	{"F13-paren-in-string", "literal", Node{K: "obj", Keys: []string{"s"}, Kids: []Node{{K: "str", S: "a)b"}}}},
 	{"F13-quote-in-key", "literal", Node{K: "obj", Keys: []string{`"`}, Kids: []Node{{K: "null"}}}},
-	{"N1-goquote", "literal", Node{K: "obj", Keys: []string{"s"}, Kids: []Node{{K: "str", S: "\x01"}}}},
-	{"N2-long53", "literal", Node{K: "obj", Keys: []string{"l"}, Kids: []Node{{K: "i64", I: 1<<53 + 1}}}},
-	{"N3-naninf", "literal", Node{K: "obj", Keys: []string{"d"}, Kids: []Node{f64Node(math.NaN())}}},
-	{"N4-typekey", "literal", Node{K: "obj", Keys: []string{"o"}, Kids: []Node{{K: "obj", Keys: []string{"type"}, Kids: []Node{{K: "str", S: "rect"}}}}}},
-	{"N5-year", "literal", Node{K: "obj", Keys: []string{"t"}, Kids: []Node{{K: "date", I: 253402300800}}}},
+	{"F26-goquote", "literal", Node{K: "obj", Keys: []string{"s"}, Kids: []Node{{K: "str", S: "\x01"}}}},
+	{"F27-long53", "literal", Node{K: "obj", Keys: []string{"l"}, Kids: []Node{{K: "i64", I: 1<<53 + 1}}}},
+	{"F28-naninf", "literal", Node{K: "obj", Keys: []string{"d"}, Kids: []Node{f64Node(math.NaN())}}},
+	{"F29-typekey", "literal", Node{K: "obj", Keys: []string{"o"}, Kids: []Node{{K: "obj", Keys: []string{"type"}, Kids: []Node{{K: "str", S: "rect"}}}}}},
+	{"F30-year", "literal", Node{K: "obj", Keys: []string{"t"}, Kids: []Node{{K: "date", I: 253402300800}}}},
 	// stored-change oracle (1b) and the server part
-	{"N6-dedup-wire", "literal", Node{K: "obj", Keys: []string{"c"}, Kids: []Node{{K: "cdedup", Act: []string{"u1"}}}}},
+	{"F31-dedup-wire", "literal", Node{K: "obj", Keys: []string{"c"}, Kids: []Node{{K: "cdedup", Act: []string{"u1"}}}}},
 	// (the dedup counter is created and filled by user operations only)
-	{"N6-dedup-wire-restore", "server", SCase{
+	{"F31-dedup-wire-restore", "server", SCase{
 		Lit:   Node{K: "obj", Keys: []string{"k"}, Kids: []Node{{K: "null"}}},
 		Sharp: true,
 		Steps: []HStep{{Op: "xcnt", A: 1}, {Op: "xcinc", A: 1, C: 0}},
